@@ -548,6 +548,7 @@ func c20Begin(in c20In) {
 	c20.mu.Lock()
 	c20.on = true
 	c20.step = 0
+	c20.blockOn = false
 	c20.log = [][]int{}
 	c20.panics = map[[3]int]bool{}
 	for _, p := range in.Panics {
@@ -560,6 +561,7 @@ func c20End() [][]int {
 	c20.mu.Lock()
 	defer c20.mu.Unlock()
 	c20.on = false
+	c20.blockOn = false
 	l := c20.log
 	c20.log = nil
 	return l
